@@ -3,7 +3,7 @@ import S3V.Thm.XmlUtf8b
 /-!
 Line ends (XML 1.0 §2.11): what `xml/de.rs` does to a text piece or a CDATA section (`Xml.normText` /
 `Xml.normLineEnds`: nothing without a CR, otherwise `replace("\r\n", "\n")` then `replace('\r', "\n")`; code since
-eab498c) is the specification's one-pass `XmlSpec.normEol`, and it keeps UTF-8 valid.
+d365e05) is the specification's one-pass `XmlSpec.normEol`, and it keeps UTF-8 valid.
 -/
 namespace S3V.XmlSpec
 open S3V S3V.Xml
